@@ -277,6 +277,50 @@ def first_final_state_wins(wf) -> bool:
     return all(match.only_via_edges(cfg, w, [(t, match.other(lab)) for (t, lab) in tests]) for w in writers)
 
 
+def check_controller_state_writes(ctx, ctl) -> None:
+    rule = "C02.R13-controller-keeps-final-states"
+    FINALS = ("FINISHED_STATE", "FAILED_STATE", "SHUTDOWN_STATE")
+    n = 0
+    for q, f in ctl.functions.items():
+        if q.count(".") > 1:
+            continue
+        writes = [a for a in source.walk_own(f) if isinstance(a, ast.Assign) and any(isinstance(t, ast.Attribute) and t.attr == "controllerState" for t in a.targets)]
+        transient = [a for a in writes if (dotted(a.value) or "").split(".")[-1].endswith("_STATE") and (dotted(a.value) or "").split(".")[-1] not in FINALS]
+        resets = [a for a in writes if isinstance(a.value, ast.Constant) and a.value.value is None]
+        if not (transient or resets):
+            continue
+        cfg = CFG(f)
+        ctx.analysed(f)
+        obj = lambda a: source.src([t for t in a.targets if isinstance(t, ast.Attribute)][0].value)
+        for a in resets:
+            n += 1
+            tv = {(dotted(t.value) or "").split(".")[-1] for t in transient if obj(t) == obj(a)}
+            tests = match.test_nodes(cfg, lambda t, a=a, tv=tv: (
+                ("T" if isinstance(match.compare_parts(t)[1], (ast.Eq, ast.Is)) else "F")
+                if (match.compare_parts(t) and dotted(match.compare_parts(t)[0]) == obj(a) + ".controllerState"
+                    and (dotted(match.compare_parts(t)[2]) or "").split(".")[-1] in tv) else None))
+            nd = [x for x in cfg.nodes if x.kind == "stmt" and x.ast is a]
+            ok = bool(tests) and bool(nd) and match.only_via_edges(cfg, nd[0], tests)
+            ctx.ob(rule, a, ok,
+                   "%s undoes its transient state only where the state is still that transient value" % q if ok else
+                   "%s resets %s.controllerState to None unconditionally: a component that was stopped (finish(SHUTDOWN)) while this function "
+                   "waited loses its final state, the restart is then refused and the component is finished again as FAILED - it is seen in two "
+                   "final states" % (q, obj(a)), construct="%s: %s.controllerState = None <- still the transient state" % (q, obj(a)))
+        for a in transient:
+            n += 1
+            tests = match.test_nodes(cfg, lambda t, a=a: match.polarity_through_locals(f, t, lambda e: (
+                match.compare_parts(e) is not None and dotted(match.compare_parts(e)[0]) == obj(a) + ".controllerState"
+                and isinstance(match.compare_parts(e)[1], (ast.Is, ast.Eq)) and isinstance(match.compare_parts(e)[2], ast.Constant)
+                and match.compare_parts(e)[2].value is None)))
+            nd = [x for x in cfg.nodes if x.kind == "stmt" and x.ast is a]
+            ok = bool(tests) and bool(nd) and match.only_via_edges(cfg, nd[0], tests)
+            ctx.ob(rule, a, ok,
+                   "%s sets its transient state only where no state was set before" % q if ok else
+                   "%s overwrites %s.controllerState with a transient state without testing that none is set: a final state given to the "
+                   "component just before is replaced" % (q, obj(a)), construct="%s: %s.controllerState = <transient> <- no state yet" % (q, obj(a)))
+    ctx.floor(rule, n, 2, "transient controllerState writes / resets in the controller")
+
+
 def check_veto_at_delivery(ctx, ctl) -> None:
     """R10: typestate of the operator list of the postMortemCheck subscriptions: [.. hop ..]* veto [no hop]*"""
     FIRST_WINS = first_final_state_wins(ctx.repo.module(WORKFLOW))
@@ -388,6 +432,10 @@ def run(ctx) -> None:
                                             "'finish() not called yet' decides that, and the loop covers the collection that is then stopped"),
         ("C02.R12-one-final-state", "ComponentState.finish assigns (or schedules) the requested final state only when the component is not "
                                     "already in FINISHED/FAILED/SHUTDOWN: whatever the ordering of the callers, the first final state stays"),
+        ("C02.R13-controller-keeps-final-states", "outside ComponentState.finish the controller writes controllerState only to mark a transient "
+                                                  "condition and to undo exactly that: a reset (= None) is reached only where the state was tested to "
+                                                  "still be the transient value this function set, and the transient value is set only where no state "
+                                                  "was set before - a component that was stopped while the controller waited keeps its final state"),
         ("C02.R7-shutdown-table", "aggregating consumer shuts down on any non-replicated SHUTDOWN input or when all replicated inputs are SHUTDOWN"),
     ]:
         ctx.rule(rid, text)
@@ -656,6 +704,7 @@ def run(ctx) -> None:
     # ------------------------------------------------ R8
     check_finish_handshake(ctx, wf)
     check_veto_at_delivery(ctx, ctl)
+    check_controller_state_writes(ctx, ctl)
     check_observed_before_stopped(ctx, ctl)
 
     # ------------------------------------------------ R6
